@@ -274,3 +274,122 @@ def c05(trace, end):
             if st != want:
                 probs.append(('status', {'model': want, 'impl': st}, 'order %d ends %s, its events say %s' % (oid, st, want)))
     return probs, {'calls_on_final_orders': nfinal_calls}
+
+
+# ------------------------------------------------------------------ C06: events and trade log vs fills
+
+def c06(trace, case, end):
+    """Reference position automaton fed with the fills of the trace."""
+    probs = []
+    orders = S.index_trace(trace)
+    spot = case['cfg'].get('type') == 'spot'
+    fee = case['cfg'].get('fee', 0)
+    pos = {}
+    cyc = {}          # symbol -> open cycle dict
+    exp_hooks = {}    # symbol -> [(name, size)]
+    exp_trades = []
+    flags = set()
+    for ev in trace:
+        if ev[0] != 'exec' or ev[3] or ev[1] not in orders:
+            continue
+        o = orders[ev[1]]
+        s = o['symbol']
+        now = ev[2]
+        q0 = pos.get(s, 0.0)
+        q = o['qty']
+        if spot and q > 0:
+            q = q * (1 - fee)
+        nominal = abs(o['qty'])
+        if o['reduce_only']:
+            if q0 * q >= 0:
+                filled = 0.0
+            elif abs(q) > abs(q0) + 1e-12:
+                filled = -q0
+                flags.add('reduce_only_fill_smaller_than_order')
+            else:
+                filled = q
+        else:
+            filled = q
+        if spot and q < 0 and abs(q) > abs(q0):
+            filled = -q0
+        if filled == 0:
+            continue
+        hooks = exp_hooks.setdefault(s, [])
+        rec_qty = abs(filled) if not (spot and filled > 0) else nominal     # trade tables hold the order quantity of buys in spot
+        if q0 == 0:
+            pos[s] = filled
+            cyc[s] = {'symbol': s, 'type': 'long' if filled > 0 else 'short', 'entries': [(rec_qty, o['price'])], 'exits': [], 'opened_at': now, 'orders': [o['oid']]}
+            hooks.append(('on_open_position', filled))
+        elif q0 * filled > 0:
+            pos[s] = q0 + filled
+            cyc[s]['entries'].append((rec_qty, o['price']))
+            cyc[s]['orders'].append(o['oid'])
+            hooks.append(('on_increased_position', pos[s]))
+        elif abs(filled) < abs(q0) - 1e-12:
+            pos[s] = q0 + filled
+            cyc[s]['exits'].append((abs(filled), o['price']))
+            cyc[s]['orders'].append(o['oid'])
+            hooks.append(('on_reduced_position', pos[s]))
+        else:
+            rest = q0 + filled
+            c = cyc.pop(s)
+            c['exits'].append((abs(q0), o['price']))
+            c['orders'].append(o['oid'])
+            c['closed_at'] = now
+            exp_trades.append(c)
+            hooks.append(('on_close_position', 0.0))
+            if abs(rest) > 1e-12:
+                flags.add('flip')
+                pos[s] = rest
+                cyc[s] = {'symbol': s, 'type': 'long' if rest > 0 else 'short', 'entries': [(abs(rest), o['price'])], 'exits': [], 'opened_at': now, 'orders': [o['oid']]}
+                hooks.append(('on_open_position', rest))
+            else:
+                pos[s] = 0.0
+    sig = {k: True for k in sorted(flags)}
+    # hooks
+    got = {}
+    for ev in trace:
+        if ev[0] == 'hook' and ev[2] in ('on_open_position', 'on_increased_position', 'on_reduced_position', 'on_close_position'):
+            got.setdefault(ev[1], []).append((ev[2], ev[5]))
+    for s in set(exp_hooks) | set(got):
+        e, g = exp_hooks.get(s, []), got.get(s, [])
+        if [x[0] for x in e] != [x[0] for x in g]:
+            k = next((i for i, (a, b) in enumerate(zip(e, g)) if a[0] != b[0]), min(len(e), len(g)))
+            probs.append(('hook-sequence', dict(sig, expected=e[k][0] if k < len(e) else None, got=g[k][0] if k < len(g) else None),
+                          '%s: fills imply hooks %s, strategy saw %s' % (s, [x[0][3:-9] for x in e], [x[0][3:-9] for x in g])))
+        else:
+            for (n1, q1), (n2, q2) in zip(e, g):
+                if abs(q1 - q2) > 1e-9 * max(1, abs(q1)):
+                    probs.append(('hook-position-size', dict(sig, hook=n1), '%s: %s saw position size %r, the fills imply %r' % (s, n1, q2, q1)))
+                    break
+    # trades
+    gt = end['trades'] if end else []
+    if len(gt) != len(exp_trades):
+        probs.append(('trade-count', sig, '%d closed trades recorded, the fills form %d completed cycles' % (len(gt), len(exp_trades))))
+    else:
+        for t, c in zip(gt, exp_trades):
+            eq = sum(a for a, _ in c['entries'])
+            ep = sum(a * p for a, p in c['entries']) / eq
+            xq = sum(a for a, _ in c['exits'])
+            xp = sum(a * p for a, p in c['exits']) / xq
+            want = {'symbol': c['symbol'], 'type': c['type'], 'qty': eq, 'entry': ep, 'exit': xp, 'opened_at': c['opened_at'], 'closed_at': c['closed_at'], 'orders': c['orders']}
+            for k in ('symbol', 'type', 'orders', 'opened_at', 'closed_at'):
+                if t[k] != want[k]:
+                    probs.append(('trade-field', dict(sig, field=k), 'trade %r: %s is %r, the fills say %r' % (c['orders'], k, t[k], want[k])))
+            for k in ('qty', 'entry', 'exit'):
+                if not (abs(t[k] - want[k]) <= 1e-9 * max(1, abs(want[k]))):
+                    probs.append(('trade-field', dict(sig, field=k), 'trade %r: %s is %r, the fills say %r' % (c['orders'], k, t[k], want[k])))
+    # wallet identity (futures)
+    if end and not spot:
+        q = [a for a in end['assets'] if a in end['starting'] and end['starting'][a] != 0][0]
+        change = end['assets'][q] - end['starting'][q]
+        total = sum(t['pnl'] for t in gt)
+        if abs(change - total) > 1e-7 * max(1.0, abs(end['starting'][q])) * 1e-2:
+            probs.append(('trades-vs-wallet', sig, 'sum of trade PnL %r, wallet changed by %r' % (total, change)))
+        m = end.get('metrics')
+        if m and 'net_profit' in m:
+            if abs(m['net_profit'] - (m['finishing_balance'] - m['starting_balance'])) > 1e-7 * max(1.0, abs(m['starting_balance'])) * 1e-2:
+                probs.append(('metrics-net-profit-vs-balance', sig, 'net_profit %r but finishing-starting balance %r' % (m['net_profit'], m['finishing_balance'] - m['starting_balance'])))
+    stats = {'completed_cycles': len(exp_trades), 'flips': int('flip' in flags), 'oversize_reduce_only': int('reduce_only_fill_smaller_than_order' in flags),
+             'hooks': sum(len(v) for v in exp_hooks.values())}
+    return probs, stats
